@@ -5,7 +5,10 @@
 //	[1 mode hold block ops...]  client call in a new actor: mode 0 HoldLock, 1 TryHoldLock, 2 HoldLockMaybeAsync; the
 //	                            callback runs ops (0 broadcast(), 1 getWaitCh(), 2 g++, 3+v g = v), then, if hold, stays
 //	                            inside the callback (holding the mutex) until event 5; if block, the caller afterwards
-//	                            blocks on the last channel it took
+//	                            blocks on the last channel it took.  op 99: the callback PANICS at this point (after
+//	                            having stayed inside until event 5, if hold); the calling goroutine recovers the panic
+//	                            (status 13).  Not applicable: mode 2 with a panicking callback while the mutex is held
+//	                            (the panic would be raised on the library's own goroutine and kill the process)
 //	[2 pk k pre slow]           Wait(ctx, pred) in a new actor; pred kind pk with parameter k (see pred); pk 4 nil callback,
 //	                            pk 5 nil context; pre: ctx already cancelled; slow: also stop at the HoldLock exit gate
 //	[3 i] actor i (parked at a HoldLock gate) runs its critical section      [4 i] cancel the context of Wait actor i
@@ -14,7 +17,19 @@
 // Observation after every event:  g, number of actors, one status per actor, one closed flag per channel handed out:
 //
 //	1 at a gate, 2 blocked, 3 returned nil / done, 4 returned context.Canceled, 5 TryHoldLock returned false,
-//	6 inside its callback, 7 at the exit gate, 8 "cb and ctx must be set", 9 anomaly, 10+e predicate error e
+//	6 inside its callback, 7 at the exit gate, 8 "cb and ctx must be set", 9 anomaly / Wait returned some other error,
+//	10+e predicate error e, 13 the client's callback panicked (recovered by the caller), 14 Wait returned
+//	context.DeadlineExceeded, 15 Wait returned the cause of its context (hctx.ErrCause)
+//
+// Contexts: the n-th Wait call of a history (counted from 1) receives hctx.Flavour(n): n%4 == 1 a context that ends like a
+// deadline (Err() == DeadlineExceeded), n%4 == 3 one cancelled with a cause, otherwise a plain WithCancel context.  Wait
+// returns the literal context.Canceled for all of them (so the flavour is not part of the event); code that returns
+// ctx.Err() / context.Cause(ctx) instead shows as 14 / 15.
+//
+// A mutex that stays locked although no callback is inside (a panicking callback whose entry point does not unlock by
+// defer): the harness looks at the Broadcast's sync.Mutex before it lets an actor run into its section (event 3).  If the
+// mutex is taken the actor is NOT released from its gate - it would block on a sync.Mutex, which is not a durable block,
+// and synctest.Wait would hang - and is reported as blocked (2) from then on, which is what it would be.
 package bcastx
 
 import (
@@ -22,12 +37,16 @@ import (
 	"errors"
 	"fmt"
 	"math/rand/v2"
+	"reflect"
+	"sync"
 	"sync/atomic"
 	"testing"
 	"testing/synctest"
+	"unsafe"
 
 	"github.com/aperturerobotics/util/broadcast"
 	"verif/harness/ctl"
+	"verif/harness/hctx"
 	"verif/harness/hist"
 )
 
@@ -36,6 +55,39 @@ const (
 	kWait   = 2
 	kHelper = 3
 )
+
+// opPanic is the callback operation "panic here"; errPanic is the value the callbacks panic with.
+const opPanic = 99
+
+var errPanic = errors.New("harness: client callback panics")
+
+var flavourNames = [3]string{"plain", "deadline_like", "with_cause"}
+
+// mutexOf returns the sync.Mutex field of the Broadcast (nil if it has none): the harness only TryLocks it, at
+// quiescent points, to see whether it is taken.
+func mutexOf(b *broadcast.Broadcast) *sync.Mutex {
+	t := reflect.TypeOf(b).Elem()
+	for i := 0; i < t.NumField(); i++ {
+		if t.Field(i).Type == reflect.TypeOf(sync.Mutex{}) {
+			return (*sync.Mutex)(unsafe.Add(unsafe.Pointer(b), t.Field(i).Offset))
+		}
+	}
+	return nil
+}
+
+// recovered runs f and reports whether it ended in the callbacks' panic (any other panic is passed on).
+func recovered(f func()) (panicked bool) {
+	defer func() {
+		if r := recover(); r != nil {
+			if r != any(errPanic) {
+				panic(r)
+			}
+			panicked = true
+		}
+	}()
+	f()
+	return false
+}
 
 var predErrs = [3]error{errors.New("pred error 0"), fmt.Errorf("pred error 1: %w", context.DeadlineExceeded), errors.New("pred error 2")}
 
@@ -51,11 +103,15 @@ type lact struct {
 	cbDone            atomic.Bool
 	parkExit          bool
 	last              <-chan struct{}
-	cancel            context.CancelFunc
+	cancel            func() // ends the context in the way of its flavour
+	flavour           int    // 0 plain, 1 deadline-like, 2 cancelled with a cause
 	cancelled         bool
-	evals             int // predicate evaluations so far (Wait actors)
-	stepEvals         int // predicate evaluations during the last [3 i] event of this actor
-	lastRes           int // result of the last evaluation: 0 false, 1 true, 2 error
+	panics            bool        // the callback program contains opPanic
+	stuck             bool        // not released into its section because the mutex is taken although no callback is inside
+	anomaly           atomic.Bool // a panicking callback was called on the library's own goroutine (it did not panic)
+	evals             int         // predicate evaluations so far (Wait actors)
+	stepEvals         int         // predicate evaluations during the last [3 i] event of this actor
+	lastRes           int         // result of the last evaluation: 0 false, 1 true, 2 error
 }
 
 type sys struct {
@@ -67,6 +123,21 @@ type sys struct {
 	chans   []<-chan struct{}
 	pending *lact
 	quit    chan struct{}
+	nwait   int         // Wait calls so far
+	mp      *sync.Mutex // the Broadcast's mutex (nil if not found)
+	tearing atomic.Bool
+}
+
+// leaked reports whether the mutex is taken although no callback is inside.
+func (s *sys) leaked() bool {
+	if s.mp == nil || s.held() {
+		return false
+	}
+	if s.mp.TryLock() {
+		s.mp.Unlock()
+		return false
+	}
+	return true
 }
 
 func newSys(w *hist.W) *sys {
@@ -93,6 +164,10 @@ func newSys(w *hist.W) *sys {
 		return h
 	}
 	broadcast.VerifHook = s.c.HookFor("broadcast", []int{0, 2}, []int{1, 3})
+	s.mp = mutexOf(&s.bc)
+	if s.mp == nil {
+		w.Count("sit.no_mutex_field_found", 1)
+	}
 	return s
 }
 
@@ -109,6 +184,21 @@ func (s *sys) clientCb(l *lact) func(broadcast func(), getWaitCh func() <-chan s
 				l.last = ch
 			case 2:
 				s.g.Add(1)
+			case opPanic:
+				if l.hold {
+					if a := s.c.Current(); a != nil {
+						s.c.ParkUser(a, 1)
+					}
+				}
+				if s.tearing.Load() {
+					return
+				}
+				if l.helper != nil && s.c.Current() == l.helper {
+					// never panic on a goroutine of the library: nobody could recover it
+					l.anomaly.Store(true)
+					return
+				}
+				panic(errPanic)
 			default:
 				s.g.Store(op - 3)
 			}
@@ -157,6 +247,12 @@ func (s *sys) pred(l *lact) func(broadcast func(), getWaitCh func() <-chan struc
 }
 
 func (s *sys) statusOf(l *lact) uint64 {
+	if l.anomaly.Load() {
+		return 9
+	}
+	if l.stuck {
+		return 2
+	}
 	act := l.a
 	if l.helper != nil {
 		if !l.a.Done() || l.a.Panicked() != nil {
@@ -227,6 +323,12 @@ func (s *sys) exec(ev []uint64) (obs []uint64, ok bool) {
 			return nil, false
 		}
 		l := &lact{kind: kClient, mode: ev[1], hold: ev[2] == 1, block: ev[3] == 1, ops: append([]uint64(nil), ev[4:]...)}
+		for _, op := range l.ops {
+			l.panics = l.panics || op == opPanic
+		}
+		if l.panics && l.mode == 2 && s.held() {
+			return nil, false
+		}
 		a := s.c.NewActor(kClient)
 		a.Data = l
 		l.a = a
@@ -234,16 +336,26 @@ func (s *sys) exec(ev []uint64) (obs []uint64, ok bool) {
 		s.pending = l
 		s.c.Go(a, func(a *ctl.Actor) {
 			cb := s.clientCb(l)
-			switch l.mode {
-			case 0:
-				s.bc.HoldLock(cb)
-			case 1:
-				if !s.bc.TryHoldLock(cb) {
-					a.Res = 5
-					return
+			// a panic of the callback is recovered here, in the calling goroutine
+			var refused bool
+			if recovered(func() {
+				switch l.mode {
+				case 0:
+					s.bc.HoldLock(cb)
+				case 1:
+					refused = !s.bc.TryHoldLock(cb)
+				default:
+					s.bc.HoldLockMaybeAsync(cb)
 				}
-			default:
-				s.bc.HoldLockMaybeAsync(cb)
+			}) {
+				a.Res = 13
+				return
+			}
+			if refused {
+				a.Res = 5
+				return
+			}
+			if l.mode == 2 {
 				a.Res = 3
 				return
 			}
@@ -263,8 +375,11 @@ func (s *sys) exec(ev []uint64) (obs []uint64, ok bool) {
 			return nil, false
 		}
 		l := &lact{kind: kWait, pk: ev[1], k: ev[2], slow: ev[4] == 1}
+		// the flavour of the context is a function of the number of Wait calls so far (replays reproduce it)
+		s.nwait++
 		var ctx context.Context
-		ctx, l.cancel = context.WithCancel(context.Background())
+		ctx, l.cancel, l.flavour = hctx.Flavour(context.Background(), s.nwait)
+		s.w.Count("sit.wait_ctx_flavour."+flavourNames[l.flavour], 1)
 		if ev[3] == 1 {
 			l.cancel()
 			l.cancelled = true
@@ -289,6 +404,10 @@ func (s *sys) exec(ev []uint64) (obs []uint64, ok bool) {
 				a.Res = 3
 			case err == context.Canceled:
 				a.Res = 4
+			case err == context.DeadlineExceeded:
+				a.Res = 14
+			case err == hctx.ErrCause:
+				a.Res = 15
 			case err == predErrs[0]:
 				a.Res = 10
 			case err == predErrs[1]:
@@ -306,6 +425,13 @@ func (s *sys) exec(ev []uint64) (obs []uint64, ok bool) {
 		i := int(ev[1])
 		if len(ev) != 2 || i >= len(s.las) || s.statusOf(s.las[i]) != 1 || s.held() {
 			return nil, false
+		}
+		if s.leaked() {
+			// the actor would block on the mutex for ever (see the package comment)
+			s.las[i].stuck = true
+			s.las[i].stepEvals = 0
+			s.w.Count("sit.section_attempt_on_leaked_mutex", 1)
+			break
 		}
 		before := s.las[i].evals
 		s.c.Step(s.stepActor(s.las[i]))
@@ -339,6 +465,7 @@ func (s *sys) exec(ev []uint64) (obs []uint64, ok bool) {
 type genCfg struct {
 	maxActs int
 	disc    bool // every generated callback program broadcasts after its last write
+	pPanic  int  // per cent of the client callbacks that panic
 }
 
 func genOps(r *rand.Rand, disc bool) []uint64 {
@@ -367,6 +494,31 @@ func genOps(r *rand.Rand, disc bool) []uint64 {
 		}
 	}
 	return ops
+}
+
+// withPanic inserts the "panic here" operation at a random place of a callback program (what follows it is never
+// executed).  In a disciplined history only at places where every write so far has been followed by a broadcast.
+func withPanic(r *rand.Rand, ops []uint64, disc bool) []uint64 {
+	var places []int
+	dirty := false
+	for j := 0; j <= len(ops); j++ {
+		if !disc || !dirty {
+			places = append(places, j)
+		}
+		if j < len(ops) {
+			switch ops[j] {
+			case 0:
+				dirty = false
+			case 1:
+			default:
+				dirty = true
+			}
+		}
+	}
+	p := places[r.IntN(len(places))]
+	out := append([]uint64{}, ops[:p]...)
+	out = append(out, opPanic)
+	return append(out, ops[p:]...)
 }
 
 func b2u(b bool) uint64 {
@@ -405,7 +557,12 @@ func (s *sys) gen(r *rand.Rand, cfg genCfg) []uint64 {
 	client := func(mode uint64) []uint64 {
 		hold := r.IntN(5) == 0
 		block := mode != 2 && r.IntN(3) == 0
-		return append([]uint64{1, mode, b2u(hold), b2u(block)}, genOps(r, cfg.disc)...)
+		ops := genOps(r, cfg.disc)
+		// a share of the callbacks panic (never a HoldLockMaybeAsync callback that would run on the library's goroutine)
+		if r.IntN(100) < cfg.pPanic && !(mode == 2 && len(holders) > 0) {
+			ops = withPanic(r, ops, cfg.disc)
+		}
+		return append([]uint64{1, mode, b2u(hold), b2u(block)}, ops...)
 	}
 	wait := func() []uint64 {
 		pk := uint64(r.IntN(4))
@@ -469,12 +626,18 @@ func (s *sys) gen(r *rand.Rand, cfg genCfg) []uint64 {
 }
 
 func (s *sys) teardown() {
+	s.tearing.Store(true)
 	for _, l := range s.las {
 		if l.cancel != nil {
 			l.cancel()
 		}
 	}
 	close(s.quit)
+	if s.leaked() {
+		// release the leaked mutex so that the parked actors can run out
+		s.mp.Unlock()
+		s.w.Count("teardown.leaked_mutex_released", 1)
+	}
 	s.c.Free()
 	// wake anything still blocked on the current wait channel
 	func() {
@@ -494,6 +657,23 @@ func (s *sys) count(ev, obs, prev []uint64) {
 	s.w.Count("ev."+names[ev[0]], 1)
 	if ev[0] == 1 {
 		s.w.Count(fmt.Sprintf("ev.client.mode%d", ev[1]), 1)
+		for j, op := range ev[4:] {
+			if op == opPanic {
+				// a panicking callback: entry point, does it stay inside first, is anything cut off, who is queueing
+				s.w.Count("ev.client.panics", 1)
+				s.w.Count(fmt.Sprintf("ev.client.panics.mode%d", ev[1]), 1)
+				if ev[2] == 1 {
+					s.w.Count("ev.client.panics.after_holding", 1)
+				}
+				if j > 0 {
+					s.w.Count("ev.client.panics.after_some_ops", 1)
+				}
+				if j < len(ev[4:])-1 {
+					s.w.Count("ev.client.panics.ops_cut_off", 1)
+				}
+				break
+			}
+		}
 		for _, op := range ev[4:] {
 			if op == 0 {
 				s.w.Count("ev.client.with_broadcast", 1)
@@ -544,6 +724,16 @@ func (s *sys) count(ev, obs, prev []uint64) {
 		}
 		if c != was {
 			switch {
+			case c == 13:
+				s.w.Count("obs.client_panicked_and_recovered", 1)
+				if was == 6 {
+					s.w.Count("obs.client_panicked_after_holding", 1)
+				}
+				if nAtGate(s, sts) > 0 {
+					s.w.Count("obs.client_panicked_while_others_queue_at_gates", 1)
+				}
+			case l.kind == kWait && (c == 14 || c == 15):
+				s.w.Count(fmt.Sprintf("obs.wait_returned_ctx_error_%d.ctx_%s", c, flavourNames[l.flavour]), 1)
 			case c == 5:
 				s.w.Count("obs.tryholdlock_false", 1)
 			case c == 1 && l.helper != nil && was == 0:
@@ -552,6 +742,7 @@ func (s *sys) count(ev, obs, prev []uint64) {
 				s.w.Count("obs.wait_nil", 1)
 			case l.kind == kWait && c == 4:
 				s.w.Count("obs.wait_canceled", 1)
+				s.w.Count("obs.wait_canceled.ctx_"+flavourNames[l.flavour], 1)
 				if was == 2 {
 					s.w.Count("obs.wait_canceled_while_blocked", 1)
 				}
@@ -580,6 +771,16 @@ func (s *sys) count(ev, obs, prev []uint64) {
 	if len(obs) > 2+n {
 		s.w.Count("obs.channel_polls", len(obs)-2-n)
 	}
+}
+
+func nAtGate(s *sys, sts []uint64) int {
+	n := 0
+	for i, c := range sts {
+		if c == 1 && i < len(s.las) {
+			n++
+		}
+	}
+	return n
 }
 
 // corpusMotifs: the corpus histories, used as PREFIXES of a share of the random histories (a random cut of a random
@@ -615,7 +816,7 @@ func runRandom(t *testing.T, w *hist.W, h int) {
 			w.Count("random_with_corpus_prefix", 1)
 		}
 		steps := 10 + r.IntN(50)
-		cfg := genCfg{maxActs: 4 + r.IntN(9), disc: r.IntN(10) < 7}
+		cfg := genCfg{maxActs: 4 + r.IntN(9), disc: r.IntN(10) < 7, pPanic: []int{0, 0, 10, 20, 35}[h%5]}
 		if prefix != nil {
 			cfg.maxActs += len(s.las)
 		}
